@@ -49,3 +49,10 @@ Definition adv_norm_Q (advs : list Q) (std : Q) : list Q :=
   let m := qmean advs in map (fun a => Qred ((a - m) / (std + (1 # 100000000)))) advs.
 Definition adv_var_Q (advs : list Q) : Q :=
   let m := qmean advs in Qred (qsum (map (fun a => (a - m) * (a - m)) advs) / (qlen advs - 1)).
+(* learning-rate application: every param group gets schedule(progress_remaining); the harness uses
+   constant and linear schedules  lr0 * progress,  progress = max(0, 1 - num_timesteps / total) *)
+Definition progress_Q (num_timesteps total : Q) : Q := Qmax 0 (1 - num_timesteps / total).
+Definition lr_Q (linear : bool) (lr0 num_timesteps total : Q) : Q :=
+  if linear then lr0 * progress_Q num_timesteps total else lr0.
+(* clipping applied to one gradient entry *)
+Definition clipped_Q (max_norm total g : Q) : Q := clip_coef_Q max_norm total * g.
